@@ -6,29 +6,29 @@ Require Import Csvq.Model.Base Csvq.Model.Fs Csvq.Model.Commit Csvq.Proofs.FsFac
 
 (* ---- the statements -------------------------------------------------------------------------- *)
 (* table t, which existed when COMMIT started, has its complete old or its complete new contents *)
-Definition table_ok (lb : content) (up : list tchange) (s0 s : fs) (t : N) : Prop :=
+Definition table_ok (up : list tchange) (s0 s : fs) (t : N) : Prop :=
   forall old, lookup s0 (data t) = Some old ->
     lookup s (data t) = Some old
-    \/ exists u, In u up /\ tid u = t /\ lookup s (data t) = Some (new_content lb u).
+    \/ exists u, In u up /\ tid u = t /\ lookup s (data t) = Some (new_content u).
 
 (* ... or is missing while the temp file holds the complete new contents *)
-Definition table_ok_or_temp (lb : content) (up : list tchange) (s0 s : fs) (t : N) : Prop :=
+Definition table_ok_or_temp (up : list tchange) (s0 s : fs) (t : N) : Prop :=
   forall old, lookup s0 (data t) = Some old ->
     lookup s (data t) = Some old
-    \/ (exists u, In u up /\ tid u = t /\ lookup s (data t) = Some (new_content lb u))
-    \/ (exists u, In u up /\ tid u = t /\ lookup s (data t) = None /\ lookup s (tempp t) = Some (new_content lb u)).
+    \/ (exists u, In u up /\ tid u = t /\ lookup s (data t) = Some (new_content u))
+    \/ (exists u, In u up /\ tid u = t /\ lookup s (data t) = None /\ lookup s (tempp t) = Some (new_content u)).
 
 Definition crash_old_or_new_stmt (rename_over : bool) : Prop :=
-  forall lb cr up idle s0 k t,
+  forall cr up idle s0 k t,
     commit_ready s0 cr up idle = true -> ~ In t (map tid cr) ->
-    table_ok lb up s0 (run s0 (firstn k (commit_ops rename_over lb cr up idle))) t.
+    table_ok up s0 (run s0 (firstn k (commit_ops rename_over cr up idle))) t.
 
 Definition recoverable_stmt (rename_over : bool) : Prop :=
-  forall lb cr up idle s0 k,
+  forall cr up idle s0 k,
     commit_ready s0 cr up idle = true ->
-    let s := delete_control_files (run s0 (firstn k (commit_ops rename_over lb cr up idle))) in
+    let s := delete_control_files (run s0 (firstn k (commit_ops rename_over cr up idle))) in
     (forall p, is_control p = true -> lookup s p = None)
-    /\ (forall t, ~ In t (map tid cr) -> table_ok lb up s0 s t).
+    /\ (forall t, ~ In t (map tid cr) -> table_ok up s0 s t).
 
 (* ---- blocks are local to their table ----------------------------------------------------------- *)
 Lemma wr_tbl : forall p d o, In o (wr p d) -> op_tbl o = snd p /\ op_local o = true /\ op_paths o = [p].
@@ -41,10 +41,10 @@ Proof.
   apply in_app_or in H. destruct H as [H|H]; eapply wr_tbl; exact H.
 Qed.
 
-Lemma write_created_tbl : forall lb c o, In o (write_created lb c) -> op_tbl o = tid c.
-Proof. intros lb c o H. apply encode_ops_spec in H. tauto. Qed.
-Lemma write_updated_tbl : forall lb c o, In o (write_updated lb c) -> op_tbl o = tid c.
-Proof. intros lb c o H. apply encode_ops_spec in H. tauto. Qed.
+Lemma write_created_tbl : forall c o, In o (write_created c) -> op_tbl o = tid c.
+Proof. intros c o H. apply encode_ops_spec in H. tauto. Qed.
+Lemma write_updated_tbl : forall c o, In o (write_updated c) -> op_tbl o = tid c.
+Proof. intros c o H. apply encode_ops_spec in H. tauto. Qed.
 Lemma commit_created_tbl : forall c o, In o (commit_created c) -> op_tbl o = tid c.
 Proof. intros c o H. simpl in H. repeat (destruct H as [H|H]; [subst o; reflexivity|]). contradiction. Qed.
 Lemma commit_updated_tbl : forall ro c o, In o (commit_updated ro c) -> op_tbl o = tid c.
@@ -62,11 +62,11 @@ Qed.
 Lemma encode_local : forall p body lb, forallb op_local (encode_ops p body lb) = true.
 Proof. intros. apply forallb_forall. intros o H. apply encode_ops_spec in H. tauto. Qed.
 
-Lemma commit_ops_local : forall ro lb cr up idle, forallb op_local (commit_ops ro lb cr up idle) = true.
+Lemma commit_ops_local : forall ro cr up idle, forallb op_local (commit_ops ro cr up idle) = true.
 Proof.
   intros. unfold commit_ops. rewrite !forallb_app.
-  rewrite (forallb_flat_map op_local (write_created lb)) by (intros; apply encode_local).
-  rewrite (forallb_flat_map op_local (write_updated lb)) by (intros; apply encode_local).
+  rewrite (forallb_flat_map op_local write_created) by (intros; apply encode_local).
+  rewrite (forallb_flat_map op_local write_updated) by (intros; apply encode_local).
   rewrite (forallb_flat_map op_local commit_created) by (intros; reflexivity).
   rewrite (forallb_flat_map op_local (commit_updated ro)) by (intros x; destruct ro; simpl; rewrite N.eqb_refl; reflexivity).
   rewrite (forallb_flat_map op_local release_idle) by (intros; reflexivity).
@@ -81,53 +81,53 @@ Proof.
   apply nodup_b_NoDup. tauto.
 Qed.
 
-Lemma filter_updated : forall ro lb cr up idle u,
+Lemma filter_updated : forall ro cr up idle u,
   NoDup (map tid cr ++ map tid up ++ idle) -> In u up ->
-  filter (on_tbl (tid u)) (commit_ops ro lb cr up idle) = write_updated lb u ++ commit_updated ro u.
+  filter (on_tbl (tid u)) (commit_ops ro cr up idle) = write_updated u ++ commit_updated ro u.
 Proof.
-  intros ro lb cr up idle u Hnd Hin. unfold commit_ops. rewrite !filter_app.
+  intros ro cr up idle u Hnd Hin. unfold commit_ops. rewrite !filter_app.
   assert (Hup : NoDup (map tid up)) by (apply NoDup_app_r in Hnd; apply NoDup_app_l in Hnd; exact Hnd).
   assert (Hiu : In (tid u) (map tid up)) by (apply in_map; exact Hin).
   assert (Hncr : ~ In (tid u) (map tid cr)).
   { intros H. apply (NoDup_app_disj _ _ (tid u) Hnd H). apply in_or_app. left. exact Hiu. }
   assert (Hnid : ~ In (tid u) idle).
   { apply NoDup_app_r in Hnd. apply (NoDup_app_disj _ _ (tid u) Hnd Hiu). }
-  rewrite (filter_flat_map_none (write_created lb) tid cr (tid u) (write_created_tbl lb) Hncr).
+  rewrite (filter_flat_map_none write_created tid cr (tid u) (write_created_tbl ) Hncr).
   rewrite (filter_flat_map_none commit_created tid cr (tid u) commit_created_tbl Hncr).
-  rewrite (filter_flat_map_one (write_updated lb) tid up u (write_updated_tbl lb) Hup Hin).
+  rewrite (filter_flat_map_one write_updated tid up u (write_updated_tbl ) Hup Hin).
   rewrite (filter_flat_map_one (commit_updated ro) tid up u (commit_updated_tbl ro) Hup Hin).
   assert (Hid : filter (on_tbl (tid u)) (flat_map release_idle idle) = []).
   { apply (filter_flat_map_none release_idle (fun x => x)); [apply release_idle_tbl | rewrite map_id; exact Hnid]. }
   rewrite Hid. simpl. rewrite app_nil_r. reflexivity.
 Qed.
 
-Lemma filter_idle : forall ro lb cr up idle t,
+Lemma filter_idle : forall ro cr up idle t,
   NoDup (map tid cr ++ map tid up ++ idle) -> In t idle ->
-  filter (on_tbl t) (commit_ops ro lb cr up idle) = release_idle t.
+  filter (on_tbl t) (commit_ops ro cr up idle) = release_idle t.
 Proof.
-  intros ro lb cr up idle t Hnd Hin. unfold commit_ops. rewrite !filter_app.
+  intros ro cr up idle t Hnd Hin. unfold commit_ops. rewrite !filter_app.
   assert (Hnup : ~ In t (map tid up)).
   { intros H. apply NoDup_app_r in Hnd. apply (NoDup_app_disj _ _ t Hnd H). exact Hin. }
   assert (Hncr : ~ In t (map tid cr)).
   { intros H. apply (NoDup_app_disj _ _ t Hnd H). apply in_or_app. right. exact Hin. }
   assert (Hid : NoDup idle) by (apply NoDup_app_r in Hnd; apply NoDup_app_r in Hnd; exact Hnd).
-  rewrite (filter_flat_map_none (write_created lb) tid cr t (write_created_tbl lb) Hncr).
+  rewrite (filter_flat_map_none write_created tid cr t (write_created_tbl ) Hncr).
   rewrite (filter_flat_map_none commit_created tid cr t commit_created_tbl Hncr).
-  rewrite (filter_flat_map_none (write_updated lb) tid up t (write_updated_tbl lb) Hnup).
+  rewrite (filter_flat_map_none write_updated tid up t (write_updated_tbl ) Hnup).
   rewrite (filter_flat_map_none (commit_updated ro) tid up t (commit_updated_tbl ro) Hnup).
   assert (G : filter (on_tbl t) (flat_map release_idle idle) = release_idle t).
   { apply (filter_flat_map_one release_idle (fun x => x) idle t); [apply release_idle_tbl | rewrite map_id; exact Hid | exact Hin]. }
   rewrite G. reflexivity.
 Qed.
 
-Lemma filter_untouched : forall ro lb cr up idle t,
+Lemma filter_untouched : forall ro cr up idle t,
   ~ In t (map tid cr) -> ~ In t (map tid up) -> ~ In t idle ->
-  filter (on_tbl t) (commit_ops ro lb cr up idle) = [].
+  filter (on_tbl t) (commit_ops ro cr up idle) = [].
 Proof.
-  intros ro lb cr up idle t Hncr Hnup Hnid. unfold commit_ops. rewrite !filter_app.
-  rewrite (filter_flat_map_none (write_created lb) tid cr t (write_created_tbl lb) Hncr).
+  intros ro cr up idle t Hncr Hnup Hnid. unfold commit_ops. rewrite !filter_app.
+  rewrite (filter_flat_map_none write_created tid cr t (write_created_tbl ) Hncr).
   rewrite (filter_flat_map_none commit_created tid cr t commit_created_tbl Hncr).
-  rewrite (filter_flat_map_none (write_updated lb) tid up t (write_updated_tbl lb) Hnup).
+  rewrite (filter_flat_map_none write_updated tid up t (write_updated_tbl ) Hnup).
   rewrite (filter_flat_map_none (commit_updated ro) tid up t (commit_updated_tbl ro) Hnup).
   assert (G : filter (on_tbl t) (flat_map release_idle idle) = []).
   { apply (filter_flat_map_none release_idle (fun x => x)); [apply release_idle_tbl | rewrite map_id; exact Hnid]. }
@@ -135,11 +135,11 @@ Proof.
 Qed.
 
 (* the binding of a path of table t after a crash = the binding after a prefix of t's own calls *)
-Lemma crash_reduces_to_table : forall ro lb cr up idle s0 k t kd, exists k',
-  lookup (run s0 (firstn k (commit_ops ro lb cr up idle))) (kd, t)
-  = lookup (run s0 (firstn k' (filter (on_tbl t) (commit_ops ro lb cr up idle)))) (kd, t).
+Lemma crash_reduces_to_table : forall ro cr up idle s0 k t kd, exists k',
+  lookup (run s0 (firstn k (commit_ops ro cr up idle))) (kd, t)
+  = lookup (run s0 (firstn k' (filter (on_tbl t) (commit_ops ro cr up idle)))) (kd, t).
 Proof.
-  intros. destruct (filter_firstn (on_tbl t) (commit_ops ro lb cr up idle) k) as [k' Hk'].
+  intros. destruct (filter_firstn (on_tbl t) (commit_ops ro cr up idle) k) as [k' Hk'].
   exists k'. rewrite <- Hk'. apply run_filter_tbl. apply forallb_firstn. apply commit_ops_local.
 Qed.
 
@@ -189,42 +189,42 @@ Ltac fs_norm := repeat first
 Ltac stepn := cbn [firstn app run fold_left step]; rewrite ?firstn_nil; cbn [fold_left].
 
 (* rename over the file: every prefix leaves the table old or new *)
-Lemma single_table_rename_over : forall lb u s old tc k,
+Lemma single_table_rename_over : forall u s old tc k,
   lookup s (data (tid u)) = Some old -> lookup s (tempp (tid u)) = Some tc ->
-  let s' := run s (firstn k (write_updated lb u ++ commit_updated true u)) in
-  lookup s' (data (tid u)) = Some old \/ lookup s' (data (tid u)) = Some (new_content lb u).
+  let s' := run s (firstn k (write_updated u ++ commit_updated true u)) in
+  lookup s' (data (tid u)) = Some old \/ lookup s' (data (tid u)) = Some (new_content u).
 Proof.
-  intros lb u s old tc k Hd Ht. cbv zeta.
-  destruct (firstn_app_cases k (write_updated lb u) (commit_updated true u)) as [[k' E]|[j E]]; rewrite E; clear E.
+  intros u s old tc k Hd Ht. cbv zeta.
+  destruct (firstn_app_cases k (write_updated u) (commit_updated true u)) as [[k' E]|[j E]]; rewrite E; clear E.
   - left. unfold write_updated. rewrite encode_prefix_frame by (unfold data, tempp; pth). exact Hd.
   - rewrite run_app.
-    assert (H1 : lookup (run s (write_updated lb u)) (data (tid u)) = Some old).
+    assert (H1 : lookup (run s (write_updated u)) (data (tid u)) = Some old).
     { unfold write_updated. rewrite encode_frame by (unfold data, tempp; pth). exact Hd. }
-    assert (H2 : lookup (run s (write_updated lb u)) (tempp (tid u)) = Some (new_content lb u)).
+    assert (H2 : lookup (run s (write_updated u)) (tempp (tid u)) = Some (new_content u)).
     { unfold write_updated. apply (encode_result _ _ _ _ tc). exact Ht. }
-    remember (run s (write_updated lb u)) as s1 eqn:E1. clear E1.
+    remember (run s (write_updated u)) as s1 eqn:E1. clear E1.
     unfold commit_updated, swap_ops, release_lock. cbn [app].
     destruct j as [|[|[|[|[|j]]]]]; stepn; try (left; exact H1); right; rewrite H2; stepn; fs_norm; reflexivity.
 Qed.
 
 (* remove, then rename: old, new, or missing with the new contents complete in the temp file *)
-Lemma single_table_remove_rename : forall lb u s old tc k,
+Lemma single_table_remove_rename : forall u s old tc k,
   lookup s (data (tid u)) = Some old -> lookup s (tempp (tid u)) = Some tc ->
-  let s' := run s (firstn k (write_updated lb u ++ commit_updated false u)) in
-  lookup s' (data (tid u)) = Some old \/ lookup s' (data (tid u)) = Some (new_content lb u)
-  \/ (lookup s' (data (tid u)) = None /\ lookup s' (tempp (tid u)) = Some (new_content lb u)).
+  let s' := run s (firstn k (write_updated u ++ commit_updated false u)) in
+  lookup s' (data (tid u)) = Some old \/ lookup s' (data (tid u)) = Some (new_content u)
+  \/ (lookup s' (data (tid u)) = None /\ lookup s' (tempp (tid u)) = Some (new_content u)).
 Proof.
-  intros lb u s old tc k Hd Ht. cbv zeta.
-  destruct (firstn_app_cases k (write_updated lb u) (commit_updated false u)) as [[k' E]|[j E]]; rewrite E; clear E.
+  intros u s old tc k Hd Ht. cbv zeta.
+  destruct (firstn_app_cases k (write_updated u) (commit_updated false u)) as [[k' E]|[j E]]; rewrite E; clear E.
   - left. unfold write_updated. rewrite encode_prefix_frame by (unfold data, tempp; pth). exact Hd.
   - rewrite run_app.
-    assert (H1 : lookup (run s (write_updated lb u)) (data (tid u)) = Some old).
+    assert (H1 : lookup (run s (write_updated u)) (data (tid u)) = Some old).
     { unfold write_updated. rewrite encode_frame by (unfold data, tempp; pth). exact Hd. }
-    assert (H2 : lookup (run s (write_updated lb u)) (tempp (tid u)) = Some (new_content lb u)).
+    assert (H2 : lookup (run s (write_updated u)) (tempp (tid u)) = Some (new_content u)).
     { unfold write_updated. apply (encode_result _ _ _ _ tc). exact Ht. }
-    remember (run s (write_updated lb u)) as s1 eqn:E1. clear E1.
+    remember (run s (write_updated u)) as s1 eqn:E1. clear E1.
     unfold commit_updated, swap_ops, release_lock. cbn [app].
-    assert (H3 : lookup (del s1 (data (tid u))) (tempp (tid u)) = Some (new_content lb u)).
+    assert (H3 : lookup (del s1 (data (tid u))) (tempp (tid u)) = Some (new_content u)).
     { rewrite lookup_del_other by (unfold data, tempp; pth). exact H2. }
     destruct j as [|[|[|[|[|[|j]]]]]]; stepn; try (left; exact H1).
     + right. right. split; [apply lookup_del_same | exact H3].
@@ -253,52 +253,52 @@ Qed.
 Lemma in_map_tid : forall (up : list tchange) t, In t (map tid up) -> exists u, In u up /\ tid u = t.
 Proof. intros up t H. apply in_map_iff in H. destruct H as [u [E Hu]]. exists u. auto. Qed.
 
-Lemma crash_table_cases : forall ro lb cr up idle s0 k t,
+Lemma crash_table_cases : forall ro cr up idle s0 k t,
   commit_ready s0 cr up idle = true -> ~ In t (map tid cr) ->
   (exists u k', In u up /\ tid u = t /\
-     lookup (run s0 (firstn k (commit_ops ro lb cr up idle))) (data t)
-     = lookup (run s0 (firstn k' (write_updated lb u ++ commit_updated ro u))) (data t) /\
-     lookup (run s0 (firstn k (commit_ops ro lb cr up idle))) (tempp t)
-     = lookup (run s0 (firstn k' (write_updated lb u ++ commit_updated ro u))) (tempp t))
-  \/ (~ In t (map tid up) /\ lookup (run s0 (firstn k (commit_ops ro lb cr up idle))) (data t) = lookup s0 (data t)).
+     lookup (run s0 (firstn k (commit_ops ro cr up idle))) (data t)
+     = lookup (run s0 (firstn k' (write_updated u ++ commit_updated ro u))) (data t) /\
+     lookup (run s0 (firstn k (commit_ops ro cr up idle))) (tempp t)
+     = lookup (run s0 (firstn k' (write_updated u ++ commit_updated ro u))) (tempp t))
+  \/ (~ In t (map tid up) /\ lookup (run s0 (firstn k (commit_ops ro cr up idle))) (data t) = lookup s0 (data t)).
 Proof.
-  intros ro lb cr up idle s0 k t Hr Hncr.
+  intros ro cr up idle s0 k t Hr Hncr.
   pose proof (ready_nodup _ _ _ _ Hr) as Hnd.
   destruct (in_dec N.eq_dec t (map tid up)) as [Hup|Hnup].
   - left. destruct (in_map_tid up t Hup) as [u [Hu Et]]. subst t.
-    destruct (filter_firstn (on_tbl (tid u)) (commit_ops ro lb cr up idle) k) as [k' Hk'].
+    destruct (filter_firstn (on_tbl (tid u)) (commit_ops ro cr up idle) k) as [k' Hk'].
     exists u, k'. split; [exact Hu|]. split; [reflexivity|].
-    rewrite <- (filter_updated ro lb cr up idle u Hnd Hu), <- Hk'.
+    rewrite <- (filter_updated ro cr up idle u Hnd Hu), <- Hk'.
     split; apply run_filter_tbl; apply forallb_firstn; apply commit_ops_local.
   - right. split; [exact Hnup|].
-    destruct (crash_reduces_to_table ro lb cr up idle s0 k t KData) as [k' Hk'].
+    destruct (crash_reduces_to_table ro cr up idle s0 k t KData) as [k' Hk'].
     unfold data. rewrite Hk'.
     destruct (in_dec N.eq_dec t idle) as [Hid|Hnid].
-    + rewrite (filter_idle ro lb cr up idle t Hnd Hid). apply release_idle_prefix_data.
-    + rewrite (filter_untouched ro lb cr up idle t Hncr Hnup Hnid). destruct k'; reflexivity.
+    + rewrite (filter_idle ro cr up idle t Hnd Hid). apply release_idle_prefix_data.
+    + rewrite (filter_untouched ro cr up idle t Hncr Hnup Hnid). destruct k'; reflexivity.
 Qed.
 
 Theorem crash_old_or_new_rename_over : crash_old_or_new_stmt true.
 Proof.
-  intros lb cr up idle s0 k t Hr Hncr old Hold.
-  destruct (crash_table_cases true lb cr up idle s0 k t Hr Hncr) as [[u [k' [Hu [Et [Hd _]]]]]|[_ Hd]].
+  intros cr up idle s0 k t Hr Hncr old Hold.
+  destruct (crash_table_cases true cr up idle s0 k t Hr Hncr) as [[u [k' [Hu [Et [Hd _]]]]]|[_ Hd]].
   - subst t. rewrite Hd.
     destruct (ready_updated_held _ _ _ _ u Hr Hu) as [_ [tc Htc]].
-    destruct (single_table_rename_over lb u s0 old tc k' Hold Htc) as [H|H].
+    destruct (single_table_rename_over u s0 old tc k' Hold Htc) as [H|H].
     + left. exact H.
     + right. exists u. auto.
   - left. rewrite Hd. exact Hold.
 Qed.
 
-Theorem crash_old_new_or_temp : forall lb cr up idle s0 k t,
+Theorem crash_old_new_or_temp : forall cr up idle s0 k t,
   commit_ready s0 cr up idle = true -> ~ In t (map tid cr) ->
-  table_ok_or_temp lb up s0 (run s0 (firstn k (commit_ops false lb cr up idle))) t.
+  table_ok_or_temp up s0 (run s0 (firstn k (commit_ops false cr up idle))) t.
 Proof.
-  intros lb cr up idle s0 k t Hr Hncr old Hold.
-  destruct (crash_table_cases false lb cr up idle s0 k t Hr Hncr) as [[u [k' [Hu [Et [Hd Ht]]]]]|[_ Hd]].
+  intros cr up idle s0 k t Hr Hncr old Hold.
+  destruct (crash_table_cases false cr up idle s0 k t Hr Hncr) as [[u [k' [Hu [Et [Hd Ht]]]]]|[_ Hd]].
   - subst t. rewrite Hd, Ht.
     destruct (ready_updated_held _ _ _ _ u Hr Hu) as [_ [tc Htc]].
-    destruct (single_table_remove_rename lb u s0 old tc k' Hold Htc) as [H|[H|[H1 H2]]].
+    destruct (single_table_remove_rename u s0 old tc k' Hold Htc) as [H|[H|[H1 H2]]].
     + left. exact H.
     + right. left. exists u. auto.
     + right. right. exists u. auto.
@@ -306,67 +306,66 @@ Proof.
 Qed.
 
 (* tables the transaction does not write are exactly as before, whatever the variant *)
-Theorem crash_unwritten_unchanged : forall ro lb cr up idle s0 k t,
+Theorem crash_unwritten_unchanged : forall ro cr up idle s0 k t,
   commit_ready s0 cr up idle = true -> ~ In t (map tid cr) -> ~ In t (map tid up) ->
-  lookup (run s0 (firstn k (commit_ops ro lb cr up idle))) (data t) = lookup s0 (data t).
+  lookup (run s0 (firstn k (commit_ops ro cr up idle))) (data t) = lookup s0 (data t).
 Proof.
-  intros ro lb cr up idle s0 k t Hr Hncr Hnup.
-  destruct (crash_table_cases ro lb cr up idle s0 k t Hr Hncr) as [[u [k' [Hu [Et _]]]]|[_ Hd]].
+  intros ro cr up idle s0 k t Hr Hncr Hnup.
+  destruct (crash_table_cases ro cr up idle s0 k t Hr Hncr) as [[u [k' [Hu [Et _]]]]|[_ Hd]].
   - exfalso. apply Hnup. rewrite <- Et. apply in_map. exact Hu.
   - exact Hd.
 Qed.
 
 (* nothing at all happens to the files of tables outside the transaction (no file appears either) *)
-Theorem crash_foreign_untouched : forall ro lb cr up idle s0 k t kd,
+Theorem crash_foreign_untouched : forall ro cr up idle s0 k t kd,
   ~ In t (map tid cr) -> ~ In t (map tid up) -> ~ In t idle ->
-  lookup (run s0 (firstn k (commit_ops ro lb cr up idle))) (kd, t) = lookup s0 (kd, t).
+  lookup (run s0 (firstn k (commit_ops ro cr up idle))) (kd, t) = lookup s0 (kd, t).
 Proof.
-  intros ro lb cr up idle s0 k t kd Hncr Hnup Hnid.
-  destruct (crash_reduces_to_table ro lb cr up idle s0 k t kd) as [k' Hk'].
-  rewrite Hk', (filter_untouched ro lb cr up idle t Hncr Hnup Hnid). destruct k'; reflexivity.
+  intros ro cr up idle s0 k t kd Hncr Hnup Hnid.
+  destruct (crash_reduces_to_table ro cr up idle s0 k t kd) as [k' Hk'].
+  rewrite Hk', (filter_untouched ro cr up idle t Hncr Hnup Hnid). destruct k'; reflexivity.
 Qed.
 
 (* the witness: one table, killed between unlinkat and renameat *)
 Definition w_s0 : fs := [(data 1, [107; 10; 49; 10]); (lockp 1, []); (tempp 1, [])]%N.
-Definition w_up : list tchange := [mkT 1 [107; 10; 50]]%N.
-Definition w_lb : content := [10]%N.
+Definition w_up : list tchange := [mkT 1 [107; 10; 50] [10]]%N.
 
 Theorem crash_old_or_new_refuted : ~ crash_old_or_new_stmt false.
 Proof.
-  intros H. specialize (H w_lb [] w_up [] w_s0 6%nat 1%N eq_refl (fun f => f) [107; 10; 49; 10]%N eq_refl).
+  intros H. specialize (H [] w_up [] w_s0 6%nat 1%N eq_refl (fun f => f) [107; 10; 49; 10]%N eq_refl).
   vm_compute in H. destruct H as [H|[u [_ [_ H]]]]; discriminate H.
 Qed.
 
 Theorem recoverable_rename_over : recoverable_stmt true.
 Proof.
-  intros lb cr up idle s0 k Hr. cbv zeta. split.
+  intros cr up idle s0 k Hr. cbv zeta. split.
   - intros p Hp. apply lookup_filter_control. unfold is_control in Hp. destruct (is_data p); [discriminate|reflexivity].
   - intros t Hncr old Hold. unfold delete_control_files. rewrite lookup_filter_data by reflexivity.
-    apply (crash_old_or_new_rename_over lb cr up idle s0 k t Hr Hncr old Hold).
+    apply (crash_old_or_new_rename_over cr up idle s0 k t Hr Hncr old Hold).
 Qed.
 
 (* with remove-then-rename, following the manual after a crash in the window deletes the only copy *)
 Theorem recoverable_refuted : ~ recoverable_stmt false.
 Proof.
-  intros H. destruct (H w_lb [] w_up [] w_s0 6%nat eq_refl) as [_ H2].
+  intros H. destruct (H [] w_up [] w_s0 6%nat eq_refl) as [_ H2].
   specialize (H2 1%N (fun f => f) [107; 10; 49; 10]%N eq_refl).
   vm_compute in H2. destruct H2 as [H2|[u [_ [_ H2]]]]; discriminate H2.
 Qed.
 
-Theorem recoverable_partial : forall lb cr up idle s0 k,
+Theorem recoverable_partial : forall cr up idle s0 k,
   commit_ready s0 cr up idle = true ->
-  let s := run s0 (firstn k (commit_ops false lb cr up idle)) in
+  let s := run s0 (firstn k (commit_ops false cr up idle)) in
   (forall p, is_control p = true -> lookup (delete_control_files s) p = None)
   /\ (forall t, ~ In t (map tid cr) -> forall old, lookup s0 (data t) = Some old ->
         lookup (delete_control_files s) (data t) = lookup s (data t)
-        /\ (lookup s (data t) = None -> exists u, In u up /\ tid u = t /\ lookup s (tempp t) = Some (new_content lb u))).
+        /\ (lookup s (data t) = None -> exists u, In u up /\ tid u = t /\ lookup s (tempp t) = Some (new_content u))).
 Proof.
-  intros lb cr up idle s0 k Hr. cbv zeta. split.
+  intros cr up idle s0 k Hr. cbv zeta. split.
   - intros p Hp. apply lookup_filter_control. unfold is_control in Hp. destruct (is_data p); [discriminate|reflexivity].
   - intros t Hncr old Hold. split.
     + unfold delete_control_files. apply lookup_filter_data. reflexivity.
     + intros Hnone.
-      destruct (crash_old_new_or_temp lb cr up idle s0 k t Hr Hncr old Hold) as [H|[[u [_ [_ H]]]|[u [Hu [Et [_ H]]]]]].
+      destruct (crash_old_new_or_temp cr up idle s0 k t Hr Hncr old Hold) as [H|[[u [_ [_ H]]]|[u [Hu [Et [_ H]]]]]].
       * congruence.
       * congruence.
       * exists u. auto.
@@ -374,46 +373,46 @@ Qed.
 
 (* the complete commit: every updated table has its new contents, every created table its contents,
    and no control file of the transaction is left *)
-Lemma full_table_updated : forall ro lb u s old tc lc,
+Lemma full_table_updated : forall ro u s old tc lc,
   lookup s (data (tid u)) = Some old -> lookup s (tempp (tid u)) = Some tc -> lookup s (lockp (tid u)) = Some lc ->
-  let s' := run s (write_updated lb u ++ commit_updated ro u) in
-  lookup s' (data (tid u)) = Some (new_content lb u) /\ lookup s' (tempp (tid u)) = None /\ lookup s' (lockp (tid u)) = None.
+  let s' := run s (write_updated u ++ commit_updated ro u) in
+  lookup s' (data (tid u)) = Some (new_content u) /\ lookup s' (tempp (tid u)) = None /\ lookup s' (lockp (tid u)) = None.
 Proof.
-  intros ro lb u s old tc lc Hd Ht Hl. cbv zeta. rewrite run_app.
-  assert (H2 : lookup (run s (write_updated lb u)) (tempp (tid u)) = Some (new_content lb u)).
+  intros ro u s old tc lc Hd Ht Hl. cbv zeta. rewrite run_app.
+  assert (H2 : lookup (run s (write_updated u)) (tempp (tid u)) = Some (new_content u)).
   { unfold write_updated. apply (encode_result _ _ _ _ tc). exact Ht. }
-  remember (run s (write_updated lb u)) as s1 eqn:E1. clear E1.
+  remember (run s (write_updated u)) as s1 eqn:E1. clear E1.
   destruct ro; unfold commit_updated, swap_ops, release_lock; cbn [app]; stepn.
   - rewrite H2. stepn. repeat split; fs_norm; reflexivity.
-  - assert (H3 : lookup (del s1 (data (tid u))) (tempp (tid u)) = Some (new_content lb u)).
+  - assert (H3 : lookup (del s1 (data (tid u))) (tempp (tid u)) = Some (new_content u)).
     { rewrite lookup_del_other by (unfold data, tempp; pth). exact H2. }
     rewrite H3. stepn. repeat split; fs_norm; reflexivity.
 Qed.
 
-Theorem commit_complete_updated : forall ro lb cr up idle s0 u,
+Theorem commit_complete_updated : forall ro cr up idle s0 u,
   commit_ready s0 cr up idle = true -> In u up ->
-  let s := run s0 (commit_ops ro lb cr up idle) in
-  lookup s (data (tid u)) = Some (new_content lb u) /\ lookup s (tempp (tid u)) = None /\ lookup s (lockp (tid u)) = None.
+  let s := run s0 (commit_ops ro cr up idle) in
+  lookup s (data (tid u)) = Some (new_content u) /\ lookup s (tempp (tid u)) = None /\ lookup s (lockp (tid u)) = None.
 Proof.
-  intros ro lb cr up idle s0 u Hr Hu. cbv zeta.
+  intros ro cr up idle s0 u Hr Hu. cbv zeta.
   pose proof (ready_nodup _ _ _ _ Hr) as Hnd.
   unfold data, tempp, lockp.
-  rewrite !(run_filter_tbl (commit_ops ro lb cr up idle) s0 (tid u)) by apply commit_ops_local.
-  rewrite (filter_updated ro lb cr up idle u Hnd Hu).
+  rewrite !(run_filter_tbl (commit_ops ro cr up idle) s0 (tid u)) by apply commit_ops_local.
+  rewrite (filter_updated ro cr up idle u Hnd Hu).
   destruct (ready_updated_held _ _ _ _ u Hr Hu) as [[old Hold] [tc Htc]].
   assert (Hl : exists lc, lookup s0 (lockp (tid u)) = Some lc).
   { unfold commit_ready in Hr. rewrite !andb_true_iff in Hr. destruct Hr as [[[_ _] Hup] _].
     rewrite forallb_forall in Hup. specialize (Hup u Hu). unfold held_update in Hup.
     rewrite !andb_true_iff in Hup. apply exists_b_true. tauto. }
   destruct Hl as [lc Hlc].
-  apply (full_table_updated ro lb u s0 old tc lc Hold Htc Hlc).
+  apply (full_table_updated ro u s0 old tc lc Hold Htc Hlc).
 Qed.
 
 (* ---- the decidable checker says the same as the Prop ------------------------------------------- *)
-Lemma table_old_or_new_spec : forall lb up s0 s t,
-  table_old_or_new lb up s0 s t = true <-> table_ok lb up s0 s t.
+Lemma table_old_or_new_spec : forall up s0 s t,
+  table_old_or_new up s0 s t = true <-> table_ok up s0 s t.
 Proof.
-  intros lb up s0 s t. unfold table_old_or_new, table_ok. split.
+  intros up s0 s t. unfold table_old_or_new, table_ok. split.
   - intros H old Hold. rewrite Hold in H. destruct (lookup s (data t)) as [c|]; [|discriminate].
     apply orb_true_iff in H. destruct H as [H|H].
     + left. apply content_eqb_eq in H. subst. reflexivity.
@@ -426,10 +425,10 @@ Proof.
       apply andb_true_iff. split; [apply N.eqb_eq; exact Et | apply content_eqb_eq; reflexivity].
 Qed.
 
-Lemma old_or_new_spec : forall lb cr up s0 s,
-  old_or_new lb cr up s0 s = true <-> (forall t, ~ In t (map tid cr) -> table_ok lb up s0 s t).
+Lemma old_or_new_spec : forall cr up s0 s,
+  old_or_new cr up s0 s = true <-> (forall t, ~ In t (map tid cr) -> table_ok up s0 s t).
 Proof.
-  intros lb cr up s0 s. unfold old_or_new. rewrite forallb_forall. split.
+  intros cr up s0 s. unfold old_or_new. rewrite forallb_forall. split.
   - intros H t Hncr. apply table_old_or_new_spec.
     unfold table_old_or_new. destruct (lookup s0 (data t)) as [old|] eqn:E; [|reflexivity].
     destruct (lookup_In_key s0 (data t) old E) as [c' Hin].
